@@ -42,6 +42,6 @@ out.mkdir(parents=True, exist_ok=True)
 shutil.copy(src / "patch.diff", out / "patch.diff")
 shutil.copy(demo, out / demo.name)
 meta["confirmation"] = res
-meta["round"] = 2
+meta["round"] = int(os.environ.get("SEED_ROUND", "2"))
 (out / "meta.json").write_text(json.dumps(meta, indent=1) + "\n")
 print(json.dumps({k: v for k, v in res.items() if not k.endswith("_tail")}))
